@@ -109,6 +109,39 @@ def _enter(entry, spec, root, opts, on_init, captured):
                     pass
 
 
+def deliver_cancel(rng, root):
+    """the cancel request, the way a user delivers it: half of the time through the real
+    `maestro cancel <dir> [<another dir>]` command (answering its confirmation prompt), otherwise
+    through the call that command ends in"""
+    import builtins
+    import logging
+    import sys
+    import maestrowf.maestro as mmod
+    from maestrowf.conductor import Conductor
+    if rng.random() < 0.5:
+        Conductor.mark_cancelled(root)
+        return "mark_cancelled"
+    dirs = [root]
+    if rng.random() < 0.4:
+        dirs.insert(rng.randint(0, 1), root + "-no-such-study")
+    argv, inp = sys.argv, builtins.input
+    root_logger = logging.getLogger()
+    handlers = list(root_logger.handlers)
+    sys.argv = ["maestro", "cancel"] + dirs
+    builtins.input = lambda *_a: "y"
+    try:
+        with contextlib.redirect_stdout(io.StringIO()):
+            mmod.main()
+    except SystemExit:
+        pass
+    finally:
+        sys.argv, builtins.input = argv, inp
+        for h in list(root_logger.handlers):
+            if h not in handlers:
+                root_logger.removeHandler(h)
+    return "maestro cancel %s" % " ".join("<study>" if d == root else "<missing>" for d in dirs)
+
+
 def run(ctx, rng, k, cancel_prob=0.0, max_polls=40, local_prob=0.0, entry="direct"):
     """returns dict(mon={prop: [...]}, polls=.., ret=.., spec=.., nontrivial=..)"""
     import maestrowf.conductor as cmod
@@ -143,6 +176,13 @@ def run(ctx, rng, k, cancel_prob=0.0, max_polls=40, local_prob=0.0, entry="direc
                 if src != "_source" and d in par:
                     par[d].append(src)
         env["parents"] = par
+        if cancel_prob and r2.random() < cancel_prob / 2:
+            # the request is already there when the conductor starts polling
+            S.WORLD.cancel_code = "OK" if r2.random() < 0.6 else "ERROR"
+            st["how"] = deliver_cancel(r2, root)
+            st["cancel_at"] = 0
+            st["events_at_cancel"] = 0
+            st["nontrivial"] = True
     mon = {"C18": [], "C07": [], "C12": [], "C05": [], "C01": []}
     st = {"polls": 0, "cancel_at": None, "nontrivial": False, "cancel_calls": 0, "seen_events": 0}
     # C01 at the level of the staged study: the parents of an instance are read
@@ -214,9 +254,10 @@ def run(ctx, rng, k, cancel_prob=0.0, max_polls=40, local_prob=0.0, entry="direc
         inflight = [x for x in names if x in dag.in_progress]
         fair = k_ >= fair_from
         if not fair and st["cancel_at"] is None and rng.random() < cancel_prob:
-            Conductor.mark_cancelled(root)
+            st["how"] = deliver_cancel(rng, root)
             S.WORLD.cancel_code = "OK" if rng.random() < 0.6 else "ERROR"
             st["cancel_at"] = k_
+            st["events_at_cancel"] = len(S.WORLD.all_events)
             st["nontrivial"] = True
         reps = []
         for nm in inflight:
@@ -256,6 +297,12 @@ def run(ctx, rng, k, cancel_prob=0.0, max_polls=40, local_prob=0.0, entry="direc
     dag, names = env["dag"], env["names"]
     # ---- after the conductor returned
     c01_scan()
+    if st["cancel_at"] is not None:
+        late = [ev for ev in S.WORLD.all_events[st["events_at_cancel"]:] if ev[0] in ("submit", "local")]
+        if late:
+            mon["C07"].append(("no-submit-after", "cancel requested (%s) after poll %d; afterwards %s"
+                               % (st.get("how"), st["cancel_at"],
+                                  ", ".join("%s(%s)" % (ev[0], ev[1]) for ev in late[:4]))))
     if st["cancel_at"] is not None and ret not in ("NONTERMINATION",):
         if not any(ev[0] == "cancel" for ev in S.WORLD.all_events):
             # the request may have arrived after the last poll: only then is it unseen
@@ -290,4 +337,5 @@ def run(ctx, rng, k, cancel_prob=0.0, max_polls=40, local_prob=0.0, entry="direc
     if ret == "NONTERMINATION":
         mon["C05"].append(("terminates", "monitor_study did not return within %d polls of a fair tail" % max_polls))
     return {"mon": mon, "polls": st["polls"], "ret": ret, "spec": spec, "nontrivial": st["nontrivial"],
-            "cancelled": st["cancel_at"], "entry": entry, "exit": code, "options": opts}
+            "cancelled": st["cancel_at"], "cancel_how": st.get("how"), "entry": entry, "exit": code,
+            "options": opts}
